@@ -3,6 +3,7 @@
 //!
 //! Command payload (`Command::bytes`): `[op][label utf-8]`
 //!   op  n  append label to fact `seq`
+//!       q  quiet: accepted, writes nothing
 //!       s  n + set   kv[k] = label
 //!       d  n + delete kv[k]
 //!       x  rejected (nothing written) when kv[k] is present, else like s
@@ -199,6 +200,7 @@ fn key(k: &str) -> Keys {
 /// The spec's `Apply` on a real fact perspective.
 fn apply(op: u8, label: &str, facts: &mut impl FactPerspective) -> Result<(), PolicyError> {
     match op {
+        b'q' => return Ok(()), // quiet: accepted, no fact written
         b'p' => {
             facts
                 .insert("kv".into(), key("poison"), label.as_bytes().into())
